@@ -205,6 +205,22 @@ func checkC02(r *mon.Run) {
 				}
 				c02Judge(r, b.name, "tamper+forged-content-beside-genuine", regionKind(im, p, len(b.out)), embedSigs(tampered, tb.root.Encode()), certs, fmt.Sprintf("byte %d changed, second Spc element with the new digest inserted in [0], in front=%v", p, front))
 			}
+			// dual-signing shape: the attacker's own signature genuinely covers the tampered image,
+			// and the victim's signature (over the ORIGINAL image) rides inside it as an unsigned
+			// SpcNestedSignature attribute (1.3.6.1.4.1.311.2.4.1), as signtool / osslsigncode -nest write
+			if k < 3 {
+				if _, atkSig, err := libSignImage(tampered, atkKey, atk); err == nil {
+					if ta, err := loadP7Tree(atkSig); err == nil {
+						if sa := ta.signer(0); sa != nil {
+							if victim, err := refder.ParseTree(b.sig); err == nil {
+								attr := &refder.Tree{Tag: 0x30, Kids: []*refder.Tree{{Tag: 0x06, Prim: refder.OID(1, 3, 6, 1, 4, 1, 311, 2, 4, 1)}, {Tag: 0x31, Kids: []*refder.Tree{victim}}}}
+								sa.si.Kids = append(sa.si.Kids, &refder.Tree{Tag: 0xA1, Kids: []*refder.Tree{attr}})
+								c02Judge(r, b.name, "tamper+victim-signature-nested-in-attackers", regionKind(im, p, len(b.out)), embedSigs(tampered, ta.root.Encode()), certs, fmt.Sprintf("byte %d changed; outer signature by another key over the changed image, the genuine signature of the original image as unsigned nested-signature attribute", p))
+							}
+						}
+					}
+				}
+			}
 			c.Kids[1].Kids[1].Prim = nd
 			forged := embedSigs(tampered, t.root.Encode())
 			c02Judge(r, b.name, "tamper+digest-rewritten", regionKind(im, p, len(b.out)), forged, certs, fmt.Sprintf("byte %d changed, Spc digest patched", p))
